@@ -168,6 +168,10 @@ def fmt_step(s):
         return f"{op}(field {s['f']}, index {s['idx']}, {s['v']})"
     if op == "get":
         return f"get(field {s['f']}, index {s['idx']})"
+    if op in ("from_raw",):
+        return f"new_with_raw_value({s['v']})"
+    if op == "to_raw":
+        return f"variant#{s['f']}.raw_value()"
     if op == "build":
         return "builder(" + ", ".join(s.get("args", [])) + ").build()"
     return op + (f"[{s['f']}]" if op in ("default", "layout", "dbg") else "")
